@@ -37,5 +37,7 @@ SEEDED = [
     ("C15-11", "C15-SETTERS"),
     ("C15-12", "C15-GLOBAL"),
     ("C15-13", "C15-GLOBAL"),
+    ("C15-14", "C15-GLOBAL"),
+    ("C15-15", "C15-SHARED"),
 ]
 MUTANTS = list(MUTANTS) + [_P("seed-" + sid, _os.path.join(_SEEDS, sid, "patch.diff"), rule) for sid, rule in SEEDED if _os.path.exists(_os.path.join(_SEEDS, sid, "patch.diff"))]
